@@ -52,6 +52,12 @@ def loopUp : List (α → α) → α → α
 /-- `decorateHandlerPublisher` -/
 def decoratePublisher (decs : List (α → α)) (pub : α) : α := loopDown decs decs.length pub
 
+/-- `decorateHandlerPublisher` on the handler's publisher field, which is `nil` for a handler registered without a
+    publisher: `if h.publisher == nil { return nil }` – no publisher ⇒ not decorated (it stays nil) -/
+def decorateHandlerPublisher (decs : List (α → α)) : Option α → Option α
+  | none => none
+  | some pub => some (decoratePublisher decs pub)
+
 /-- `decorateHandlerSubscriber`: the context decorator first, then the registered ones in range order -/
 def decorateSubscriber (ctxDec : α → α) (decs : List (α → α)) (sub : α) : α := loopUp decs (ctxDec sub)
 
@@ -102,6 +108,15 @@ def chainTrace (regs : List Reg) (name : String) : List Ev :=
 /-- trace of one outgoing message through the decorated publisher -/
 def pubTrace (pd : List Nat) : List Ev := decoratePublisher (pd.map recPub) [Ev.published]
 
+/-- recording publisher decorator when ONE `Publish` call carries `n` messages: it looks at every element of the slice
+    (`for i := range messages { transform(messages[i]) }` – whatever their UUIDs are), then calls the wrapped publisher
+    with the whole slice -/
+def recPubN (n i : Nat) : PubT → PubT := fun inner => List.replicate n (Ev.pub i) ++ inner
+
+/-- trace of one `Publish` call with `n` outgoing messages through the decorated publisher -/
+def pubTraceN (n : Nat) (pd : List Nat) : List Ev :=
+  decoratePublisher (pd.map (recPubN n)) (List.replicate n Ev.published)
+
 /-- the subscriber object a handler was registered with: a raw one, or one the application has already wrapped in its
     own transform decorator `g` (the same wrapped object may be given to several handlers: every handler decorates it
     into an object of its OWN, `decorateHandlerSubscriber` never modifies what it was given) -/
@@ -115,9 +130,10 @@ def subTraceFrom (app : Option Nat) (sd : List Nat) : List Ev :=
 
 def subTrace (sd : List Nat) : List Ev := subTraceFrom none sd
 
-/-- everything one message does in a handler that returns one message (if it has a publisher) or none -/
-def msgTrace (regs : List Reg) (pd sd : List Nat) (name : String) (hasPub : Bool) (app : Option Nat := none) : List Ev :=
-  subTraceFrom app sd ++ chainTrace regs name ++ (if hasPub then pubTrace pd else [])
+/-- everything one message does in a handler whose function returns `outs` messages (0: a handler without publisher
+    returns none; 1; or several – distinct objects, possibly with equal or empty UUIDs – handed to ONE `Publish` call) -/
+def msgTrace (regs : List Reg) (pd sd : List Nat) (name : String) (outs : Nat) (app : Option Nat := none) : List Ev :=
+  subTraceFrom app sd ++ chainTrace regs name ++ pubTraceN outs pd
 
 /-! ### registration programs -/
 
@@ -131,10 +147,12 @@ inductive POp
 inductive Op
   | routerMw (ids : List Nat)                  -- router.AddMiddleware(ids...)
   | handlerMw (h : String) (ids : List Nat)    -- handler.AddMiddleware(ids...)
-  | addHandler (h : String) (hasPub : Bool) (app : Option Nat)
+  | addHandler (h : String) (outs : Nat) (app : Option Nat)
                                                -- router.AddHandler / AddNoPublisherHandler; `app = some g`: with the
                                                -- application-decorated (shared) subscriber object `g`
   | plugin (ps : List POp)                     -- router.AddPlugin(func(r) { ps })
+  | stopAgain                                  -- Stop() once more through the handle of a handler that has already stopped
+                                               -- (possibly after a new handler was added under its name): nothing happens
   | stopHandler (h : String)                   -- handler.Stop() (and wait for Stopped()): the handler leaves the router
   | callerEdits                                -- the application edits the slices it passed (`ms...`, `decs...`) so far:
                                                -- overwrites elements, appends on their spare capacity, hands them to
@@ -147,7 +165,7 @@ inductive Op
 
 structure HSt where
   name   : String
-  hasPub : Bool
+  outs   : Nat                 -- messages its function returns per consumed message (0: no publisher)
   app    : Option Nat
   trace  : Option (List Ev)    -- `some t`: started; `t` = what every message does from then on (snapshot)
   deriving DecidableEq, Repr, Inhabited
@@ -194,7 +212,7 @@ def loadPlugins (s : St) : St :=
 def startH (s : St) (h : HSt) : HSt :=
   match h.trace with
   | some _ => h                                                      -- `if h.started { continue }`
-  | none => { h with trace := some (msgTrace s.regs s.pd s.sd h.name h.hasPub h.app) }
+  | none => { h with trace := some (msgTrace s.regs s.pd s.sd h.name h.outs h.app) }
 
 def block (hs : List HSt) : List (String × List Ev) :=
   hs.filterMap fun h => h.trace.map fun t => (h.name, t)
@@ -208,6 +226,7 @@ def step (s : St) : Op → Option St
     if s.hs.any (·.name == h) then none else some { s with hs := s.hs ++ [⟨h, p, a, none⟩] }
   | .plugin ps => some { s with plugins := s.plugins ++ [ps] }
   | .callerEdits => some s
+  | .stopAgain => some s
   | .stopHandler h =>
     -- only a started handler can be stopped (`Stop` panics otherwise); its `run` loop ends, RunHandlers' goroutine
     -- deletes it from `r.handlers`.  Its registrations stay in `r.middlewares` (they carry its name, nothing else has it)
